@@ -585,12 +585,27 @@ MUTATORS = {"append", "extend", "insert", "remove", "pop", "popitem", "clear", "
             "reverse"}
 
 
-def rule_nostate(ctx: Ctx) -> RuleResult:
-    """No function on the read path keeps results in instance attributes or module-level containers
-    (the three memo decorators are the only memory, and R-PUREMEMO confines them)."""
+WRITE_ROOTS = [
+    "spil.sid.pathops.write_paths.WriteToPaths.create", "spil.sid.pathops.write_paths.WriteToPaths.update",
+    "spil.sid.pathops.write_paths.WriteToPaths.set", "spil.sid.pathops.write_paths.WriteToPaths.delete",
+    "spil.sid.write.write_all.WriteToAll.create", "spil.sid.write.write_all.WriteToAll.update", "spil.sid.write.write_all.WriteToAll.set",
+    "spil.sid.write.write_all.WriteToAll.delete",
+]
+
+
+CONF_ROOTS = ["spil.conf.util.extrapolate_templates", "spil.conf.util.pattern_replacing"]
+
+
+def rule_nostate(ctx: Ctx, which: str = "read") -> RuleResult:
+    """No function on the read path (``which='write'``: on the write path) keeps results in instance attributes or module-level
+    containers, directly or by handing such a container to a callee that fills it (the three memo decorators are the only memory,
+    and R-PUREMEMO confines them)."""
     res = RuleResult("R-NOSTATE")
-    roots = [ctx.p.function(q) for q in READ_ROOTS]
+    roots = [ctx.p.function(q) for q in {"read": READ_ROOTS, "write": WRITE_ROOTS, "conf": CONF_ROOTS}[which]]
     reach = ctx.cg.reachable_from(roots)
+    from .mutation import _param_effects, bind_args
+
+    pe = _param_effects(ctx)
     wrappers = {w.qualname for w in memo_decorators(ctx).values()}
     n_checked = 0
     for q in sorted(reach):
@@ -599,12 +614,32 @@ def rule_nostate(ctx: Ctx) -> RuleResult:
             continue
         if f.name in ("__init__", "_init", "__new__") or f.module.name == "spil.sid.read.finders.find_cache":
             continue
-        if f.module.name.startswith("spil.util.log") or f.module.name.startswith("spil.conf"):
+        if f.module.name.startswith("spil.util.log") or (f.module.name.startswith("spil.conf") and which != "conf"):
             continue
         n_checked += 1
         mod_containers = {n for n, bs in f.module.bindings.items()
                           if any(b.kind == "assign" and isinstance(b.value, (ast.Dict, ast.List, ast.Set, ast.Call)) for b in bs)}
         flow = flow_of(f.node)
+        # a container of the instance / the module handed to a callee that writes into that parameter
+        for cs in ctx.cg.sites.get(q, []):
+            if not isinstance(cs.node, ast.Call):
+                continue
+            for t in cs.targets:
+                muts = pe.mutates.get(t.qualname) or set()
+                if not muts:
+                    continue
+                for pname, arg in bind_args(t, cs.node):
+                    if pname not in muts:
+                        continue
+                    held = None
+                    if isinstance(arg, ast.Attribute) and isinstance(arg.value, ast.Name) and arg.value.id in ("self", "cls"):
+                        held = f"attribute {arg.value.id}.{arg.attr}"
+                    elif isinstance(arg, ast.Name) and not flow.is_local(arg.id) and arg.id in mod_containers:
+                        held = f"module-level container {arg.id}"
+                    if held and (q, held) not in NOSTATE_TABLE:
+                        res.violation([q, held, "via " + t.qualname], f"{f.short} is on the {which} path and hands {held} to {t.short}, which writes into it "
+                                                                     f"(`{norm(cs.node)[:90]}`): later answers depend on earlier calls", f.relpath,
+                                      cs.node.lineno, chain=ctx.cg.chain(reach, q))
         for n in own_nodes(f.node):
             target = None
             if isinstance(n, (ast.Assign, ast.AugAssign, ast.AnnAssign)):
@@ -642,10 +677,10 @@ def rule_nostate(ctx: Ctx) -> RuleResult:
                 res.violation([q, target, cname], f"{f.short} writes {target} and the accepted idiom no longer holds: {detail}",
                               f.relpath, n.lineno, chain=ctx.cg.chain(reach, q))
             else:
-                res.violation([q, target], f"{f.short} is on the read path and writes {target} (`{norm(stmt)[:100]}`): later answers "
+                res.violation([q, target], f"{f.short} is on the {which} path and writes {target} (`{norm(stmt)[:100]}`): later answers "
                                                f"depend on earlier calls", f.relpath, n.lineno, chain=ctx.cg.chain(reach, q))
-    res.floor(n_checked, 40, "functions on the read path examined")
-    res.ok(f"{n_checked} functions reachable from the read entry points", "no state is kept outside the memo decorators", nontrivial=False)
+    res.floor(n_checked, {"read": 40, "write": 10, "conf": 2}[which], f"functions on the {which} path examined")
+    res.ok(f"{n_checked} functions reachable from the {which} entry points", "no state is kept outside the memo decorators", nontrivial=False)
     return res
 
 
